@@ -524,6 +524,8 @@ class Interp:
                 return v.attrs
             if attr == "is_pinned":
                 return lambda: False
+            if attr == "is_quantized":
+                return False
             if getattr(self, "dispatch_methods", False) and hasattr(STensor, attr) and callable(getattr(STensor, attr)) \
                     and attr in _DISPATCHED_METHODS and prog.find_method(v.cls, "__torch_function__") is not None:
                 # torch semantics: a tensor method of a subclass instance goes through the class's __torch_function__
@@ -649,6 +651,9 @@ class Interp:
             v.attrs = value
             return
         if isinstance(v, STObj):
+            if attr == "__dict__":
+                v.attrs = value
+                return
             v.attrs[attr] = value
             return
         if isinstance(v, Obj):
